@@ -6,5 +6,5 @@ for l in open(os.path.join(HERE, 'properties.jsonl')):
     p = json.loads(l)
     if p['id'] == pid:
         text = '%s\n  %s\n  (Quantified over: %s)' % (p['title'], p['statement'], p['quantifier']['text'])
-        t = open(os.path.join(HERE, '.prompts', 'mutant.md')).read()
+        t = open(os.path.join(HERE, '.prompts', os.environ.get('MUTANT_PROMPT','mutant.md'))).read()
         print(t.replace('{WT}', wt).replace('{PROP}', text).replace('{N}', n))
